@@ -1,4 +1,7 @@
-/- C18 — Python-code rendering evaluates back to the object: property theorems.
+/- C18 — Python-code rendering evaluates back to the object: property theorems,
+for the code as it is after the fix commits 1242bcb (enum members by
+`__qualname__`), e20b710 (tuples keep their brackets), 3837894 (QName text
+through `json.dumps`).
 
 Reading guide (definitions in Code/Pycode.lean and Code/PycodeWF.lean):
   `render W v`      the expression `PycodeSerializer.repr_object` emits for `v`
@@ -8,8 +11,8 @@ Reading guide (definitions in Code/Pycode.lean and Code/PycodeWF.lean):
   `wf W v`          `v` is built from classes that exist in world `W`
   `domOK W v`       the property's own domain (no NaN, hashable keys,
                     `init=False` attributes at their default)
-  `clean v`         `v` avoids the three value-level defects
-  `importsOK W v`   no two imported classes share a name (fourth defect)
+  `setFree v`       no non-empty set/frozenset (still rendered as lists)
+  `importsOK W v`   no two imported classes share a name
 -/
 import XsdataModel.Proofs.Pycode
 
@@ -20,17 +23,41 @@ open Py Xs.Code
 
 /-- `literal_value` writes non-finite floats as `float("…")` and QNames as
 `QName("…")` — a call of the bare names `float` / `QName` with one
-double-quoted literal; `build_imports` writes `from M import N\n`;
-`str(member)` is `Class.MEMBER`; `float` is a builtin and `QName` is not. -/
+double-quoted literal; `build_imports` writes `from M import N\n`; an enum
+member is written `Qual.Name.MEMBER`; `float`, `set`, `frozenset` are builtins
+and `QName` is not. -/
 theorem literal_formats :
     Tables.floatLitPre = cs!"float(\"" ∧ Tables.floatLitPost = cs!"\")" ∧
     Tables.qnameLitPre = cs!"QName(\"" ∧ Tables.qnameLitPost = cs!"\")" ∧
     Tables.importPre = cs!"from " ∧ Tables.importMid = cs!" import " ∧ Tables.importPost = cs!"\n" ∧
-    Tables.enumStrSep = cs!"." ∧ Tables.qnameName = cs!"QName" ∧
-    Tables.builtinNames.contains cs!"float" = true ∧ Tables.builtinNames.contains cs!"QName" = false := by
+    Tables.enumStrSep = cs!"." ∧ Tables.enumNestedProbe = cs!"O7.E7.A7" ∧ Tables.qnameName = cs!"QName" ∧
+    Tables.builtinNames.contains cs!"float" = true ∧ Tables.builtinNames.contains cs!"set" = true ∧
+    Tables.builtinNames.contains cs!"frozenset" = true ∧ Tables.builtinNames.contains cs!"QName" = false := by
+  decide
+
+/-- the text the live `repr_object` gives for `(1,)`, `[1]`, `{1}`,
+`frozenset({1})`, `()`, `[]`, `set()`, `frozenset()`, `{}`, `{1: 1}` is what
+the model prints: tuples keep their parentheses, sets become list displays -/
+theorem layout_probes :
+    Tables.reprProbes =
+      [Val.tuple [.int 1], .list [.int 1], .set false [.int 1], .set true [.int 1], .tuple [], .list [],
+       .set false [], .set true [], .dict [], .dict [(.int 1, .int 1)]].map (fun v => (render [] v).text 0) := by
+  decide
+
+/-- for each of the 128 ASCII characters, what the live `literal_value` puts
+between `QName("` and `")` is the model's `json.dumps` escape -/
+theorem qname_escapes_ascii :
+    Tables.qnameEscAscii = (List.range 128).map (fun i => jsonEscChar (Char.ofNat i)) := by
   decide
 
 /-! ## What holds of the code as it is -/
+
+/-- **qname_text_roundtrips**: whatever the text of a QName — quotes,
+backslashes, control characters, any Unicode scalar value — the Python parser
+reads the literal that `json.dumps(text, ensure_ascii=False)` wrote back as
+exactly that text. (Lone surrogates are not `Char`s; see NOTES.) -/
+theorem qname_text_roundtrips (t : Str) : decodeDq .normal (jsonBody t) = some t :=
+  decodeDq_jsonBody t
 
 /-- **imports_exact**: the import block binds exactly the outermost names of
 the non-builtin classes collected while rendering — nothing is missing, nothing
@@ -51,23 +78,24 @@ theorem imports_exact (ts : List ClsRef) (m n : Str) :
     have : (t.module == builtinsMod) = false := by simpa using hnb
     simp [importOf, this]
 
-/-- **imports_sufficient, for any repair configuration**: for every world and
-every value in the property's domain that avoids the regions `cfg` does not
-repair, each dotted name the emitted expression uses resolves — in the
-namespace created by the emitted import lines alone — to exactly the class it
-was written for. -/
-theorem imports_sufficient_cfg (cfg : Cfg) (W : World) (v : Val)
-    (hwf : wf W v = true) (hdom : domOK W v = true) (hclean : clean cfg v = true)
-    (himp : importsOKC cfg W v = true) :
-    EnvGood W (importsEnv W v) ((render W v).refs cfg) := by
+/-- **imports_sufficient (partial)**: for every world and every value in the
+property's domain without a non-empty set, provided no two imported classes
+share a name, each dotted name the emitted expression uses — class
+constructors at any nesting depth, enum members of nested enums, `QName`,
+`Decimal`, `float`, `set` — resolves, in the namespace created by the emitted
+import lines alone, to exactly the class it was written for. -/
+theorem imports_sufficient_partial (W : World) (v : Val)
+    (hwf : wf W v = true) (hdom : domOK W v = true) (hset : setFree v = true)
+    (himp : importsOK W v = true) :
+    EnvGood W (importsEnv W v) (render W v).refs := by
   intro pc hpc
-  have hok := valOK_of_dom_clean cfg W v hdom hclean
-  have hg := refs_good cfg W v hwf hok pc hpc
-  have hmem := refs_sub_types cfg (render W v) pc hpc
+  have hok := valOK_of_dom_setFree W v hdom hset
+  have hg := refs_good W v hwf hok pc hpc
+  have hmem := refs_sub_types (render W v) pc hpc
   apply resolve_of_good hg hmem
   intro t ht
   have := himp
-  simp only [importsOKC, importsOKe, List.all_eq_true] at this
+  simp only [importsOK, importsOKe, List.all_eq_true] at this
   have h := this pc hpc t ht
   simp only [Bool.or_eq_true, beq_iff_eq, bne_iff_ne] at h
   rcases h with (h | h) | h
@@ -75,82 +103,49 @@ theorem imports_sufficient_cfg (cfg : Cfg) (W : World) (v : Val)
   · exact Or.inr (Or.inl h)
   · exact Or.inr (Or.inr h)
 
-/-- **code_rt, for any repair configuration** -/
-theorem code_rt_cfg (cfg : Cfg) (W : World) (v : Val)
-    (hwf : wf W v = true) (hdom : domOK W v = true) (hclean : clean cfg v = true)
-    (himp : importsOKC cfg W v = true) :
-    ∃ v', runC cfg W v = .ok v' ∧ pyEq v' v = true :=
-  rt cfg W (importsEnv W v) v hwf (valOK_of_dom_clean cfg W v hdom hclean)
-    (imports_sufficient_cfg cfg W v hwf hdom hclean himp)
-
-/-- **imports_sufficient (partial)** — the code as it is: every name the
-source uses is bound by the emitted imports to the class it means, outside the
-excluded regions (`clean`: nested enum / non-empty tuple / QName needing
-escapes; `importsOK`: one name imported from two modules). -/
-theorem imports_sufficient_partial (W : World) (v : Val)
-    (hwf : wf W v = true) (hdom : domOK W v = true) (hclean : clean Cfg.asIs v = true)
-    (himp : importsOK W v = true) :
-    EnvGood W (importsEnv W v) ((render W v).refs Cfg.asIs) :=
-  imports_sufficient_cfg Cfg.asIs W v hwf hdom hclean himp
-
-/-- **code_rt (partial)** — the code as it is: executing the rendered source —
-the emitted import lines, then the emitted expression — succeeds and yields a
-value Python-equal to the original, for all classes (nested, frozen, with
-`init=False` fields and default factories) and all instances in the domain
-outside the four excluded regions. Fields elided because they equal their
-default are restored by the constructor to a value equal to the original's. -/
+/-- **code_rt (partial)**: executing the rendered source — the emitted import
+lines, then the emitted expression — succeeds and yields a value Python-equal
+to the original, for all classes (nested, frozen, with `init=False` fields and
+default factories) and all instances in the domain: members of nested enums,
+tuples (also as dict keys), QNames with any text, ±inf, Decimals, bytes,
+date/time values, empty and nested collections, attribute maps. Fields elided
+because they equal their default are restored by the constructor to a value
+equal to the original's. Still excluded: a non-empty set (`setFree`) and an
+import name clash (`importsOK`). -/
 theorem code_rt_partial (W : World) (v : Val)
-    (hwf : wf W v = true) (hdom : domOK W v = true) (hclean : clean Cfg.asIs v = true)
+    (hwf : wf W v = true) (hdom : domOK W v = true) (hset : setFree v = true)
     (himp : importsOK W v = true) :
-    ∃ v', run W v = .ok v' ∧ pyEq v' v = true :=
-  code_rt_cfg Cfg.asIs W v hwf hdom hclean himp
+    ∃ v', run W v = .ok v' ∧ pyEq v' v = true := by
+  obtain ⟨v', h1, h2, _⟩ := rt W (importsEnv W v) v hwf (valOK_of_dom_setFree W v hdom hset)
+    (imports_sufficient_partial W v hwf hdom hset himp)
+  exact ⟨v', h1, h2⟩
 
 /-- the same, phrased on the outcome class that the correspondence check
 compares with the real `exec` -/
 theorem outcome_equal_partial (W : World) (v : Val)
-    (hwf : wf W v = true) (hdom : domOK W v = true) (hclean : clean Cfg.asIs v = true)
+    (hwf : wf W v = true) (hdom : domOK W v = true) (hset : setFree v = true)
     (himp : importsOK W v = true) :
     outcome W v = cs!"equal" := by
-  obtain ⟨v', hr, he⟩ := code_rt_partial W v hwf hdom hclean himp
-  have hrisk := no_risk Cfg.asIs W v (valOK_of_dom_clean Cfg.asIs W v hdom hclean)
-  simp only [run] at hr
-  simp [outcome, outcomeC, hrisk, hr, he]
+  obtain ⟨v', hr, he⟩ := code_rt_partial W v hwf hdom hset himp
+  have hrisk := no_risk W v (valOK_of_dom_setFree W v hdom hset)
+  simp [outcome, hrisk, hr, he]
 
 /-- **code_rt for any adequate namespace**: the round trip does not depend on
 how the names got bound — any namespace in which the references resolve will do
-(e.g. the source pasted into a module that already imports the classes). -/
+(e.g. the source pasted into a module that already imports the classes; this is
+also the way around an import name clash). -/
 theorem code_rt_any_env (W : World) (env : Xs.Code.Env) (v : Val)
-    (hwf : wf W v = true) (hdom : domOK W v = true) (hclean : clean Cfg.asIs v = true)
-    (henv : EnvGood W env ((render W v).refs Cfg.asIs)) :
-    ∃ v', eval Cfg.asIs W env (render W v) = .ok v' ∧ pyEq v' v = true :=
-  rt Cfg.asIs W env v hwf (valOK_of_dom_clean Cfg.asIs W v hdom hclean) henv
-
-/-- **code_rt with the three one-line repairs** (tuple brackets by type, enum
-members by `__qualname__`, `QName({text!r})`): the round trip holds on the whole
-domain; only the import-name clash remains excluded. -/
-theorem code_rt_patched (W : World) (v : Val)
-    (hwf : wf W v = true) (hdom : domOK W v = true) (himp : importsOKC Cfg.patched W v = true) :
-    ∃ v', runC Cfg.patched W v = .ok v' ∧ pyEq v' v = true :=
-  code_rt_cfg Cfg.patched W v hwf hdom (clean_patched v) himp
-
-/-- hypotheses of `code_rt_patched` hold for a value with a nested-enum member,
-a non-empty tuple and a QName with a backslash -/
-example :
-    let v : Val := .model ⟨cs!"pkg.mod_a", [cs!"Outer"]⟩
-      [.enum ⟨cs!"pkg.mod_a", [cs!"Outer", cs!"Inner"]⟩ cs!"A",
-       .tuple [.int 1, .qname cs!"{a\\b}x" cs!"'{a\\\\b}x'"], .str cs!"en" cs!"'en'", .int 0]
-    let W : World := [
-      ⟨⟨cs!"pkg.mod_a", [cs!"Outer"]⟩, .model [⟨cs!"x", true, .value .none⟩, ⟨cs!"t", true, .factory (.tuple [])⟩,
-          ⟨cs!"lang", false, .value (.str cs!"en" cs!"'en'")⟩, ⟨cs!"n", true, .value (.int 0)⟩]⟩,
-      ⟨⟨cs!"pkg.mod_a", [cs!"Outer", cs!"Inner"]⟩, .enum [cs!"A"]⟩]
-    wf W v = true ∧ domOK W v = true ∧ importsOKC Cfg.patched W v = true ∧
-      outcomeC Cfg.patched W v = cs!"equal" ∧ outcome W v = cs!"exc:NameError" := by
-  decide
+    (hwf : wf W v = true) (hdom : domOK W v = true) (hset : setFree v = true)
+    (henv : EnvGood W env (render W v).refs) :
+    ∃ v', eval W env (render W v) = .ok v' ∧ pyEq v' v = true := by
+  obtain ⟨v', h1, h2, _⟩ := rt W env v hwf (valOK_of_dom_setFree W v hdom hset) henv
+  exact ⟨v', h1, h2⟩
 
 /-! The hypotheses are satisfiable by a non-trivial input: nested model
-classes three deep, a frozen-style tuple default left empty, an `init=False`
-attribute at its default, a default elided across types (`0 == False`),
-`inf`, a Decimal, a QName, a module-level enum, a dict with an enum key. -/
+classes three deep, a non-empty tuple, an `init=False` attribute at its
+default, a default elided across types (`0 == False`), `inf`, a Decimal, a
+QName whose text has a backslash and a double quote, a member of a nested enum,
+a dict with an enum key and one with a tuple key, an empty frozenset. -/
 
 def mA : Str := cs!"pkg.mod_a"
 def mB : Str := cs!"pkg.mod_b"
@@ -172,25 +167,26 @@ def W1 : World := [
 def good : Val :=
   .model outerR [
     .list [.model deepR [.list [.float .pinf cs!"inf", .opaque decR [cs!"Decimal"] cs!"('1.50')" (some (.fin 3 2))]],
-           .model in2R [.dict [(.enum topR cs!"B", .qname cs!"{urn:x}a" cs!"'{urn:x}a'")]]],
-    .tuple [], en, .bool false]
+           .model in2R [.dict [(.enum topR cs!"B", .qname cs!"{a\\b}\"x")]]],
+    .tuple [.enum innerR cs!"A", .dict [(.tuple [.int 1, .int 2], .set true [])]], en, .bool false]
 
-example : wf W1 good = true ∧ domOK W1 good = true ∧ clean Cfg.asIs good = true ∧ importsOK W1 good = true := by decide
+example : wf W1 good = true ∧ domOK W1 good = true ∧ setFree good = true ∧ importsOK W1 good = true := by decide
 example : outcome W1 good = cs!"equal" := by decide
 
-/-! ## Full-strength statements and why they fail -/
+/-! ## Full-strength statements and why they still fail -/
 
 /-- C18, first half, at full strength: every instance in the domain
-round-trips. **False** of the code as it stands. -/
+round-trips. **False** of the code as it stands (sets, import name clashes). -/
 def CodeRoundTrips : Prop :=
   ∀ (W : World) (v : Val), wf W v = true → domOK W v = true →
     ∃ v', run W v = .ok v' ∧ pyEq v' v = true
 
 /-- C18, second half, at full strength: the emitted imports make every name
-the source uses denote the class it means. **False** of the code as it stands. -/
+the source uses denote the class it means. **False** of the code as it stands
+(import name clashes). -/
 def ImportsSufficient : Prop :=
   ∀ (W : World) (v : Val), wf W v = true → domOK W v = true →
-    EnvGood W (importsEnv W v) ((render W v).refs Cfg.asIs)
+    EnvGood W (importsEnv W v) (render W v).refs
 
 /-- decidable form of "running the source fails with `e`" -/
 def failsWith (W : World) (v : Val) (e : Err) : Bool :=
@@ -226,45 +222,21 @@ theorem envGoodB_of {W : World} {env : Xs.Code.Env} {refs : List (List Str × Cl
   intro pc hpc
   simp [h pc hpc]
 
-/-- **Defect 1 — member of an Enum nested in a class.** `Outer(x=Outer.Inner.A)`
-is rendered `Outer(x=Inner.A)` with `from pkg.mod_a import Outer`: NameError. -/
-def nestedEnumWitness : Val := .model outerR [.enum innerR cs!"A", .tuple [], en, .int 0]
+/-- **Defect — non-empty sets are rendered as list displays.** `Outer(x={1, 2})`
+evaluates back to `Outer(x=[1, 2])`, which is not equal (likewise frozensets). -/
+def setWitness : Val := .model outerR [.set false [.int 1, .int 2], .tuple [], en, .int 0]
+def frozensetWitness : Val := .model outerR [.set true [.int 1], .tuple [], en, .int 0]
 
-theorem nested_enum_name_error :
-    wf W1 nestedEnumWitness = true ∧ domOK W1 nestedEnumWitness = true ∧
-    importsOK W1 nestedEnumWitness = true ∧
-    source W1 nestedEnumWitness cs!"obj"
-      = cs!"from pkg.mod_a import Outer\n\n\nobj = Outer(\n    x=Inner.A\n)\n" ∧
-    failsWith W1 nestedEnumWitness .nameError = true ∧
-    envGoodB W1 (importsEnv W1 nestedEnumWitness) ((render W1 nestedEnumWitness).refs Cfg.asIs) = false := by
+theorem set_rendered_as_list :
+    wf W1 setWitness = true ∧ domOK W1 setWitness = true ∧ importsOK W1 setWitness = true ∧
+    source W1 setWitness cs!"obj"
+      = cs!"from pkg.mod_a import Outer\n\n\nobj = Outer(\n    x=[\n        1,\n        2,\n    ]\n)\n" ∧
+    givesUnequal W1 setWitness = true ∧
+    wf W1 frozensetWitness = true ∧ domOK W1 frozensetWitness = true ∧
+    givesUnequal W1 frozensetWitness = true := by
   decide
 
-/-- **Defect 2 — non-empty tuples are rendered as list displays.** `Outer(t=(1, 2))`
-evaluates back to `Outer(t=[1, 2])`, which is not equal; as a dict key the
-list is unhashable. -/
-def tupleWitness : Val := .model outerR [.none, .tuple [.int 1, .int 2], en, .int 0]
-def tupleKeyWitness : Val := .dict [(.tuple [.int 1, .int 2], .int 3)]
-
-theorem tuple_rendered_as_list :
-    wf W1 tupleWitness = true ∧ domOK W1 tupleWitness = true ∧ importsOK W1 tupleWitness = true ∧
-    source W1 tupleWitness cs!"obj"
-      = cs!"from pkg.mod_a import Outer\n\n\nobj = Outer(\n    t=[\n        1,\n        2,\n    ]\n)\n" ∧
-    givesUnequal W1 tupleWitness = true ∧
-    domOK W1 tupleKeyWitness = true ∧ failsWith W1 tupleKeyWitness .typeError = true := by
-  decide
-
-/-- **Defect 3 — QName text pasted unescaped.** `QName("{a\b}x")` reads `\b`
-as backspace: the value changes. -/
-def qnameWitness : Val := .model outerR [.qname cs!"{a\\b}x" cs!"'{a\\\\b}x'", .tuple [], en, .int 0]
-
-theorem qname_text_unescaped :
-    wf W1 qnameWitness = true ∧ domOK W1 qnameWitness = true ∧ importsOK W1 qnameWitness = true ∧
-    source W1 qnameWitness cs!"obj"
-      = cs!"from pkg.mod_a import Outer\nfrom xml.etree.ElementTree import QName\n\n\nobj = Outer(\n    x=QName(\"{a\\b}x\")\n)\n" ∧
-    givesUnequal W1 qnameWitness = true := by
-  decide
-
-/-- **Defect 4 — the same class name imported from two modules.** The later
+/-- **Defect — the same class name imported from two modules.** The later
 import shadows the earlier one; the source then builds the wrong class
 (unequal) or passes it a keyword it does not know (TypeError). -/
 def addrA : ClsRef := ⟨mA, [cs!"Address"]⟩
@@ -276,66 +248,58 @@ def clashWitness1 : Val := .model addrA [.model addrB [.none, .int 1], .int 0]
 def clashWitness2 : Val := .model addrB [.model addrA [.none, .int 1], .int 0]
 
 theorem import_name_clash :
-    wf W2 clashWitness1 = true ∧ domOK W2 clashWitness1 = true ∧ clean Cfg.asIs clashWitness1 = true ∧
+    wf W2 clashWitness1 = true ∧ domOK W2 clashWitness1 = true ∧ setFree clashWitness1 = true ∧
     importsEnv W2 clashWitness1 = [(mA, cs!"Address"), (mB, cs!"Address")] ∧
     givesUnequal W2 clashWitness1 = true ∧
-    wf W2 clashWitness2 = true ∧ domOK W2 clashWitness2 = true ∧ clean Cfg.asIs clashWitness2 = true ∧
+    wf W2 clashWitness2 = true ∧ domOK W2 clashWitness2 = true ∧ setFree clashWitness2 = true ∧
     failsWith W2 clashWitness2 .typeError = true ∧
-    envGoodB W2 (importsEnv W2 clashWitness1) ((render W2 clashWitness1).refs Cfg.asIs) = false := by
+    envGoodB W2 (importsEnv W2 clashWitness1) (render W2 clashWitness1).refs = false := by
   decide
 
-/-- the full-strength round-trip statement is false (four independent witnesses) -/
-theorem not_codeRoundTrips : ¬ CodeRoundTrips := by
-  intro h
-  exact not_rt_of_fails nested_enum_name_error.2.2.2.2.1
-    (h W1 nestedEnumWitness nested_enum_name_error.1 nested_enum_name_error.2.1)
-
-theorem not_codeRoundTrips_tuple : ¬ CodeRoundTrips := fun h =>
-  not_rt_of_unequal tuple_rendered_as_list.2.2.2.2.1
-    (h W1 tupleWitness tuple_rendered_as_list.1 tuple_rendered_as_list.2.1)
-
-theorem not_codeRoundTrips_qname : ¬ CodeRoundTrips := fun h =>
-  not_rt_of_unequal qname_text_unescaped.2.2.2.2
-    (h W1 qnameWitness qname_text_unescaped.1 qname_text_unescaped.2.1)
+/-- the full-strength round-trip statement is false (two independent witnesses) -/
+theorem not_codeRoundTrips : ¬ CodeRoundTrips := fun h =>
+  not_rt_of_unequal set_rendered_as_list.2.2.2.2.1
+    (h W1 setWitness set_rendered_as_list.1 set_rendered_as_list.2.1)
 
 theorem not_codeRoundTrips_clash : ¬ CodeRoundTrips := fun h =>
   not_rt_of_unequal import_name_clash.2.2.2.2.1
     (h W2 clashWitness1 import_name_clash.1 import_name_clash.2.1)
 
-/-- the full-strength import statement is false: nested enum, and name clash -/
+/-- the full-strength import statement is false: name clash -/
 theorem not_importsSufficient : ¬ ImportsSufficient := by
-  intro h
-  have := envGoodB_of (h W1 nestedEnumWitness nested_enum_name_error.1 nested_enum_name_error.2.1)
-  rw [nested_enum_name_error.2.2.2.2.2] at this
-  cases this
-
-theorem not_importsSufficient_clash : ¬ ImportsSufficient := by
   intro h
   have := envGoodB_of (h W2 clashWitness1 import_name_clash.1 import_name_clash.2.1)
   rw [import_name_clash.2.2.2.2.2.2.2.2.2] at this
   cases this
 
-/-- Each exclusion is needed: the three `clean` witnesses satisfy every other
+/-- Each remaining exclusion is needed: the set witnesses satisfy every other
 hypothesis of `code_rt_partial` (`wf`, `domOK`, `importsOK`), the clash
-witnesses satisfy `wf`, `domOK`, `clean`. -/
+witnesses satisfy `wf`, `domOK`, `setFree`. -/
 theorem exclusions_are_tight :
-    clean Cfg.asIs nestedEnumWitness = false ∧ clean Cfg.asIs tupleWitness = false ∧
-    clean Cfg.asIs qnameWitness = false ∧
+    setFree setWitness = false ∧ setFree frozensetWitness = false ∧
     importsOK W2 clashWitness1 = false ∧ importsOK W2 clashWitness2 = false := by
   decide
 
-/-- the three value-level witnesses round-trip once the repairs are applied;
-the emitted text then reads `Outer.Inner.A`, `( 1, 2, )`, `QName('{a\\b}x')` -/
-theorem repairs_fix_witnesses :
-    outcomeC Cfg.patched W1 nestedEnumWitness = cs!"equal" ∧
-    outcomeC Cfg.patched W1 tupleWitness = cs!"equal" ∧
-    outcomeC Cfg.patched W1 tupleKeyWitness = cs!"equal" ∧
-    outcomeC Cfg.patched W1 qnameWitness = cs!"equal" ∧
-    sourceC Cfg.patched W1 nestedEnumWitness cs!"obj"
+/-! ## The three repaired defects stay repaired
+
+The witnesses of the former counterexample theorems (`nested_enum_name_error`,
+`tuple_rendered_as_list`, `qname_text_unescaped`) now fall under
+`code_rt_partial`; their emitted text and outcome, for the record. -/
+
+def nestedEnumWitness : Val := .model outerR [.enum innerR cs!"A", .tuple [], en, .int 0]
+def tupleWitness : Val := .model outerR [.none, .tuple [.int 1, .int 2], en, .int 0]
+def tupleKeyWitness : Val := .dict [(.tuple [.int 1, .int 2], .int 3)]
+def qnameWitness : Val := .model outerR [.qname cs!"{a\\b}\"x", .tuple [], en, .int 0]
+
+theorem repaired_witnesses :
+    outcome W1 nestedEnumWitness = cs!"equal" ∧ outcome W1 tupleWitness = cs!"equal" ∧
+    outcome W1 tupleKeyWitness = cs!"equal" ∧ outcome W1 qnameWitness = cs!"equal" ∧
+    source W1 nestedEnumWitness cs!"obj"
       = cs!"from pkg.mod_a import Outer\n\n\nobj = Outer(\n    x=Outer.Inner.A\n)\n" ∧
-    sourceC Cfg.patched W1 tupleWitness cs!"obj"
+    source W1 tupleWitness cs!"obj"
       = cs!"from pkg.mod_a import Outer\n\n\nobj = Outer(\n    t=(\n        1,\n        2,\n    )\n)\n" ∧
-    outcomeC Cfg.patched W2 clashWitness1 = cs!"unequal" := by
+    source W1 qnameWitness cs!"obj"
+      = cs!"from pkg.mod_a import Outer\nfrom xml.etree.ElementTree import QName\n\n\nobj = Outer(\n    x=QName(\"{a\\\\b}\\\"x\")\n)\n" := by
   decide
 
 end Props.C18
